@@ -28,6 +28,7 @@ var (
 	c06pCutHeader  = sim.RegStat("probe:c06-cut-inside-a-frame-header")
 	c06pWithHS     = sim.RegStat("probe:c06-frames-split-together-with-handshake-response")
 	c06pEOFBehind  = sim.RegStat("probe:c06-peer-ends-the-stream-right-behind-its-last-frame")
+	c06pRstBehind  = sim.RegStat("probe:c06-peer-resets-the-connection-behind-frames-still-unread")
 	c06pDataEOF    = sim.RegStat("probe:c06-transport-reports-eof-together-with-the-last-bytes")
 	c06pChained    = sim.RegStat("probe:c06-next-read-started-from-inside-the-completion")
 	c06pRetune     = sim.RegStat("probe:c06-max-message-size-raised-while-an-async-read-is-pending")
@@ -389,6 +390,15 @@ func runC06(c *Ctx, variant int) {
 	}
 	w.Stat(c06pAPI[api])
 	maxSize := w.Pick(4096, 1024, 70000, 262144, 4321, 100, 5)
+	// (sixth round of seeds) the peer resets the connection while all its frames sit unread in the client's receive
+	// queue: epoll reports EPOLLIN|EPOLLERR|EPOLLHUP at once, and what was received before the reset is still read
+	// first (Linux hands queued data over before the error). No control frames in such a session (a Pong cannot be
+	// written to a reset connection) and no message above the limit (nor can the Close frame that answers it).
+	rstBehind := variant < 0 && transport == 0 && w.Chance(1, 6)
+	if rstBehind {
+		maxSize = 262144
+		w.TCPRcvCap = 1 << 20
+	}
 	if variant >= 0 {
 		maxSize = 300
 	}
@@ -397,7 +407,10 @@ func runC06(c *Ctx, variant int) {
 	if variant >= 0 {
 		nMsgs = 2
 	}
-	g := wsGenSession(w, nMsgs, maxSize, true)
+	g := wsGenSession(w, nMsgs, maxSize, !rstBehind)
+	if len(g.wire) > 900_000 {
+		rstBehind = false
+	}
 	var cuts []int
 	if variant >= 0 {
 		// every split point of a short session: the run index walks the offsets
@@ -458,7 +471,12 @@ func runC06(c *Ctx, variant int) {
 		d.mem.Defer = w.Chance(1, 3)
 		d.feed(g.wire, cuts)
 	}
-	if variant < 0 && w.Chance(1, 3) {
+	if rstBehind {
+		w.Stat(c06pRstBehind)
+		w.Drain(60_000_000_000) // everything the peer sent has arrived
+		d.srv.end.ActorAbort()
+		w.Drain(1_000_000_000)
+	} else if variant < 0 && w.Chance(1, 3) {
 		// the peer ends the stream directly behind its last frame; a transport may then hand the last bytes
 		// over together with the end-of-stream indication (tls.Conn does, for a close_notify behind the data)
 		w.Stat(c06pEOFBehind)
